@@ -74,6 +74,13 @@ def cases(tier, seed):
         out.append(_case(g, "lr", True, N))
         out.append(_case(g, "glr", False, N))
         out.append(_case(g, "glr", True, N))
+    for nm in ("leftrec", "lex-alt", "nullable-end", "expr"):
+        for mode, ld in (("lr", True), ("glr", False)):
+            for opt in ("custom-tokens", "pretable"):
+                c = _case(corpus.shape(nm), mode, ld, N)
+                c["name"] += "|" + opt
+                c["params"]["opt"] = opt
+                out.append(c)
     for nm in PRIO:
         g = prio_spec(nm)
         for mode, ld in (("lr", True), ("glr", False)):
@@ -103,12 +110,24 @@ def build(params, symbolic):
     no_overlap = all(len(t) == 1 for t in texts) and len(set(texts)) == len(texts)
     # (terminal priorities only order the scan among terminals that match at one position; with non-overlapping
     #  terminals they must not change which prefixes are found)
+    opt = params.get("opt")
+    okw = {}
+    if opt == "custom-tokens":
+        okw["custom_token_recognition"] = lambda context, get_tokens: get_tokens()  # pass-through
     try:
         with build_guard(20):
-            if mode == "lr":
-                parser = Parser(Grammar.from_string(spec.text()), consume_input=False, build_tree=True)
+            if opt == "pretable":
+                # precomputed table handed to the constructor; scanning options left at their defaults
+                g0 = Grammar.from_string(spec.text())
+                okw["table"] = (Parser(g0) if mode == "lr" else GLRParser(g0)).table
+                if mode == "lr":
+                    parser = Parser(g0, consume_input=False, build_tree=True, **okw)
+                else:
+                    parser = GLRParser(g0, consume_input=False, **okw)
+            elif mode == "lr":
+                parser = Parser(Grammar.from_string(spec.text()), consume_input=False, build_tree=True, **okw)
             else:
-                parser = GLRParser(Grammar.from_string(spec.text()), consume_input=False, lexical_disambiguation=ld)
+                parser = GLRParser(Grammar.from_string(spec.text()), consume_input=False, lexical_disambiguation=ld, **okw)
     except (SRConflicts, RRConflicts) as e:
         raise Skip("Parser() does not construct: %s" % type(e).__name__)
     if symbolic:
